@@ -308,20 +308,60 @@ func c41(c *engine.Ctx) {
 		}
 	}
 	if hb := c.MustFunc("C41.R4", "mtproto", "Conn.handleBadMsg"); hb != nil {
-		for _, call := range engine.CallsTo(hb, false, "(*rpc.Engine).NotifyError") {
-			a := engine.Args(call.Common())
-			id := engine.Describe(a[1])
-			if !strings.HasSuffix(id, ".BadMsgID") {
+		// a notification site: NotifyError(id, &badMessageError{Code, NewSalt}) in
+		// handleBadMsg itself, or a call of a helper of the package that does
+		// exactly that with its own parameters (then the call-site arguments count)
+		type site struct {
+			call           ssa.CallInstruction
+			id, code, salt ssa.Value
+		}
+		var sites []site
+		for _, call := range engine.Calls(hb) {
+			if engine.CalleeID(call.Common()) == "(*rpc.Engine).NotifyError" {
+				a := engine.Args(call.Common())
+				sites = append(sites, site{call, a[1], engine.StructFieldValue(a[2], "Code"), engine.StructFieldValue(a[2], "NewSalt")})
+				continue
+			}
+			h := call.Common().StaticCallee()
+			if h == nil || h.Pkg != hb.Pkg || len(h.Blocks) == 0 {
+				continue
+			}
+			inner := engine.CallsTo(h, false, "(*rpc.Engine).NotifyError")
+			if len(inner) != 1 {
+				continue
+			}
+			ia := engine.Args(inner[0].Common())
+			args := engine.Args(call.Common())
+			toSite := func(v ssa.Value) ssa.Value {
+				if v == nil {
+					return nil
+				}
+				for i, p := range h.Params {
+					if engine.Unwrap(v) == ssa.Value(p) && i < len(args) {
+						return args[i]
+					}
+				}
+				return nil
+			}
+			s := site{call, toSite(ia[1]), toSite(engine.StructFieldValue(ia[2], "Code")), toSite(engine.StructFieldValue(ia[2], "NewSalt"))}
+			if k, isK := engine.ConstInt(s.salt); isK && k == 0 {
+				s.salt = nil // no new salt for this kind of notification
+			}
+			sites = append(sites, s)
+		}
+		for _, s := range sites {
+			call := s.call
+			id := engine.Describe(s.id)
+			if s.id == nil || !strings.HasSuffix(id, ".BadMsgID") {
 				c.Fail("C41.R4", "handleBadMsg/notify#"+ordinalCall(hb, call)+"/id", call.Pos(), "the notified request must be BadMsgID of the decoded notification (is %s)", id)
 				continue
 			}
 			base := strings.TrimSuffix(id, ".BadMsgID")
 			n4++
-			codeV := engine.StructFieldValue(a[2], "Code")
-			c.Check(codeV != nil && engine.Describe(codeV) == base+".ErrorCode", "C41.R4", "handleBadMsg/notify#"+ordinalCall(hb, call)+"/code", call.Pos(), "the error must carry ErrorCode of the same notification")
-			if ns := engine.StructFieldValue(a[2], "NewSalt"); ns != nil {
+			c.Check(s.code != nil && engine.Describe(s.code) == base+".ErrorCode", "C41.R4", "handleBadMsg/notify#"+ordinalCall(hb, call)+"/code", call.Pos(), "the error must carry ErrorCode of the same notification")
+			if s.salt != nil {
 				n4++
-				c.Check(engine.Describe(ns) == base+".NewServerSalt", "C41.R4", "handleBadMsg/notify#"+ordinalCall(hb, call)+"/new-salt", call.Pos(), "NewSalt must be NewServerSalt of the same notification (is %s)", engine.Describe(ns))
+				c.Check(engine.Describe(s.salt) == base+".NewServerSalt", "C41.R4", "handleBadMsg/notify#"+ordinalCall(hb, call)+"/new-salt", call.Pos(), "NewSalt must be NewServerSalt of the same notification (is %s)", engine.Describe(s.salt))
 			}
 		}
 	}
@@ -364,5 +404,5 @@ func c41(c *engine.Ctx) {
 			})
 		}
 	}
-	c.Floor("C41.R5", 2, n5)
+	c.Floor("C41.R5", 1, n5)
 }
